@@ -6,6 +6,7 @@ from astlib import block_tail, calls, find_fn, find_impl, find_item, fns_in_file
 from finfun import E, NONE, Unsupported, World
 from pathcond import conditions_to, fact_str, facts_str, find_path, let_env
 import reportflow
+import sgrep
 
 TITLE = "Report conservation and output contract"
 LEVEL_TEXT = (
@@ -65,10 +66,12 @@ def rule_drain(ctx):
         apps = [a for a in method_calls(fn["body"], "append") if render(strip(a["recv"])) == dv]
         okk = False
         for a in apps:
-            if "analysis_pass(" in render(a["args"][0]).replace(" ", ""):
-                cs = conditions_to(fn["body"], a) or []
-                loopok = any(c[0] == "loop" and "get_analysis_passes()" in fact_str(c) for c in cs)
-                extra = [fact_str(c) for c in cs if c[0] not in ("loop",) and not (c[0] == "iflet" and c[3] and render(c[1]).replace(" ", "") == "Ok(cfg)")]
+            cs = conditions_to(fn["body"], a) or []
+            lp = [c for c in cs if c[0] == "loop" and "get_analysis_passes()" in fact_str(c)]
+            lvn = render(lp[-1][2]) if lp else None
+            if lvn and render(strip(a["args"][0])).replace(" ", "").startswith(lvn + "("):
+                loopok = True
+                extra = [fact_str(c) for c in cs if c[0] not in ("loop",) and not (c[0] == "iflet" and c[3] and re.fullmatch(r"Ok\(\w+\)", render(c[1]).replace(" ", "")))]
                 okk = loopok and not extra
         ctx.check(R, "analyze_%s/every-pass-result-appended" % kind, okk, "`for analysis_pass in get_analysis_passes() { %s.append(&mut analysis_pass(self, &cfg)) }` expected, unconditional inside the Ok branch" % dv, site(RUN, fn))
     # the outer loops visit every name once
@@ -83,11 +86,41 @@ def rule_drain(ctx):
         ctx.check(R, "analyze_%s/one-analysis-per-name" % kind, bool(inner), render(fn["body"])[:200], site(RUN, fn))
 
 
+def canon_main(ctx, R):
+    import alpha, copy
+    fn0 = find_fn(MAIN, "main")
+    if fn0 is None:
+        ctx.missing(R, "cli::main")
+        return None
+    fn = copy.deepcopy(fn0)
+    mp = {}
+    for n in walk(fn["body"]):
+        if n["k"] == "Local" and n["pat"]["k"] == "PIdent" and n["init"] is not None:
+            t = render(n["init"]).replace(" ", "")
+            if "CachedStdoutWriter::new(" in t:
+                mp[n["pat"]["name"]] = "stdout_writer"
+            elif "SarifWriter::new(" in t:
+                mp[n["pat"]["name"]] = "sarif_writer"
+            elif t.startswith("Cli::parse()"):
+                mp[n["pat"]["name"]] = "options"
+        if n["k"] == "Local" and n["pat"]["k"] == "PTuple" and n["init"] is not None and "AnalysisRunner::new(" in render(n["init"]).replace(" ", ""):
+            names = [x["name"] for x in n["pat"]["elems"] if x["k"] == "PIdent"]
+            if len(names) == 2:
+                mp[names[0]] = "runner"
+                mp[names[1]] = "reports"
+    need = {"stdout_writer", "options", "runner", "reports"}
+    if not need <= set(mp.values()):
+        ctx.missing(R, "main/roles", "found %s" % mp)
+        return None
+    alpha.rename(fn["body"], {k: v for k, v in mp.items() if k != v})
+    return fn
+
+
 def rule_exit_status(ctx, R="C03.2"):
     ctx.rule(R, "exit status is SUCCESS exactly when the displayed-report counter is 0; the summary prints that counter; the counter grows by the number of reports that passed the filters, and exactly those are emitted")
-    fn = find_fn(MAIN, "main")
+    fn = canon_main(ctx, R)
     if fn is None:
-        return ctx.missing(R, "cli::main")
+        return
     ms = [m for m in walk(fn["body"]) if m["k"] == "Match" and "reports_written" in render(m["scrut"])]
     if len(ms) != 1:
         ctx.missing(R, "main/match-on-reports_written", "found %d" % len(ms))
@@ -162,7 +195,9 @@ def rule_exit_status(ctx, R="C03.2"):
             ctx.missing(R, ty + "::filter")
             continue
         t = render(ff["body"]).replace(" ", "")
-        ctx.check(R, ty + "::filter/conjunction-of-all-filters", "self.filters.iter().all(|f|f.filter(report))" in t and ".filter(|report|" in t and ".cloned()" in t and "any(" not in t, t[:200], site(WR, ff))
+        pvf = sgrep.params(ff)
+        okc = bool(pvf) and (sgrep.has(ff["body"], "__rs.iter().filter(|__r| self.filters.iter().all(|__f| __f.filter(__r))).cloned().collect()", sgrep.lets(ff["body"]), {"__rs": pvf[0]}) or sgrep.has(ff["body"], "__rs.iter().filter(|__r| self.filters.iter().all(|__f| __f.filter(__r))).cloned().collect::<ReportCollection>()", sgrep.lets(ff["body"]), {"__rs": pvf[0]}))
+        ctx.check(R, ty + "::filter/conjunction-of-all-filters", okc and "any(" not in t, t[:200], site(WR, ff))
 
 
 def filter_chain(expr):
@@ -184,9 +219,9 @@ def filter_chain(expr):
 def rule_sarif(ctx):
     R = "C03.3"
     ctx.rule(R, "the SARIF writer is configured with the same filters (same predicates over the same option fields) as the stdout writer and is fed the cache of everything that was offered to stdout")
-    fn = find_fn(MAIN, "main")
+    fn = canon_main(ctx, R)
     if fn is None:
-        return ctx.missing(R, "cli::main")
+        return
     env = {}
     for n in walk(fn["body"]):
         if n["k"] == "Local" and n["pat"]["k"] == "PIdent" and n["init"] is not None:
@@ -240,7 +275,9 @@ def rule_sarif(ctx):
     if w is None:
         return ctx.missing(R, "CachedStdoutWriter::write_reports")
     t = render(w["body"]).replace(" ", "")
-    ok = "self.reports.extend(reports.iter().cloned());" in t and t.rstrip("}").endswith("self.writer.write_reports(reports,file_library)")
+    pvw = sgrep.params(w)
+    tl = block_tail(w["body"])
+    ok = len(pvw) == 2 and sgrep.has(w["body"], "self.reports.extend(__rs.iter().cloned())", None, {"__rs": pvw[0]}) and tl is not None and sgrep.match(sgrep.pattern("self.writer.write_reports(__rs, __fl)"), tl, {"__rs": pvw[0], "__fl": pvw[1]})
     ctx.check(R, "CachedStdoutWriter::write_reports/cache-all-then-delegate", ok and not [n for n in walk(w["body"]) if n["k"] in ("If", "Match")], t[:200], site(WR, w))
     rp = find_fn(WR, "reports", "CachedStdoutWriter")
     if rp is not None:
@@ -268,21 +305,34 @@ def rule_sarif(ctx):
         env3 = let_env(ts["body"])
         exp = {"level": "self.category().to_level()", "rule_id": "self.id()"}
         for k, v in exp.items():
-            ctx.check(R, "Report::to_sarif/" + k, k in env3 and render(strip(env3[k])).replace(" ", "") == v, "%s = %s" % (k, render(env3.get(k)) if k in env3 else "?"), site(SC, ts))
+            ctx.check(R, "Report::to_sarif/" + k, any(render(strip(x)).replace(" ", "") == v for x in env3.values()), "a local bound to %s" % v, site(SC, ts))
         t = render(ts["body"]).replace(" ", "")
-        ctx.check(R, "Report::to_sarif/locations-from-primary", "self.primary().iter().map(|label|label.to_sarif(files))" in t, "", site(SC, ts))
-        ctx.check(R, "Report::to_sarif/related-from-secondary", "self.secondary().iter().map(|label|label.to_sarif(files))" in t, "", site(SC, ts))
-        ctx.check(R, "Report::to_sarif/message", ".text(self.message())" in t, "", site(SC, ts))
-        for fld in ("level(level)", "rule_id(rule_id)", "locations(locations)", "related_locations(related_locations)", "message(message)"):
-            ctx.check(R, "Report::to_sarif/builder." + fld, "." + fld in t, "", site(SC, ts))
+        pvs = sgrep.params(ts)
+        bf = {"__fl": pvs[0]} if pvs else None
+        lp = [k for k, v in env3.items() if sgrep.has(v, "self.primary().iter().map(|__l| __l.to_sarif(__fl))", None, bf)]
+        ls = [k for k, v in env3.items() if sgrep.has(v, "self.secondary().iter().map(|__l| __l.to_sarif(__fl))", None, bf)]
+        lm = [k for k, v in env3.items() if sgrep.has(v, "__b.text(self.message())")]
+        lv = [k for k, v in env3.items() if render(strip(v)).replace(" ", "") == "self.category().to_level()"]
+        li = [k for k, v in env3.items() if render(strip(v)).replace(" ", "") == "self.id()"]
+        ctx.check(R, "Report::to_sarif/locations-from-primary", len(lp) == 1, str(lp), site(SC, ts))
+        ctx.check(R, "Report::to_sarif/related-from-secondary", len(ls) == 1, str(ls), site(SC, ts))
+        ctx.check(R, "Report::to_sarif/message", len(lm) == 1, str(lm), site(SC, ts))
+        bld = {}
+        for m_ in walk(ts["body"]):
+            if m_["k"] == "MethodCall" and m_["method"] in ("level", "rule_id", "locations", "related_locations", "message") and m_["args"] and "ResultBuilder" in render(m_["recv"]):
+                bld[m_["method"]] = render(strip(m_["args"][0]))
+        wantb = {"level": lv, "rule_id": li, "locations": lp, "related_locations": ls, "message": lm}
+        for fld, names in wantb.items():
+            ctx.check(R, "Report::to_sarif/builder.%s" % fld, bld.get(fld) in names, "ResultBuilder.%s(%s), expected one of %s" % (fld, bld.get(fld), names), site(SC, ts))
     tc = None
     for q, f in fns_in_file(SC):
         if f["name"] == "to_sarif" and q.replace(" ", "") == "ToSarifforReportCollection":
             tc = f
     if tc is not None:
         t = render(tc["body"]).replace(" ", "")
-        ctx.check(R, "ReportCollection::to_sarif/one-result-per-report", "self.iter().map(|report|report.to_sarif(files)).collect::<SarifResult<Vec<_>>>()" in t, "", site(SC, tc))
-        ctx.check(R, "ReportCollection::to_sarif/rules-keyed-by-name-and-id", "map(|report|(report.name(),report.id())).collect::<HashSet<_>>()" in t, "", site(SC, tc))
+        pvc = sgrep.params(tc)
+        ctx.check(R, "ReportCollection::to_sarif/one-result-per-report", bool(pvc) and sgrep.has(tc["body"], "self.iter().map(|__r| __r.to_sarif(__fl)).collect::<SarifResult<Vec<_>>>()", None, {"__fl": pvc[0]}), "", site(SC, tc))
+        ctx.check(R, "ReportCollection::to_sarif/rules-keyed-by-name-and-id", sgrep.has(tc["body"], "self.iter().map(|__r| (__r.name(), __r.id())).collect::<HashSet<_>>()"), "", site(SC, tc))
 
 
 def rule_region(ctx, R="C03.8"):
@@ -403,20 +453,24 @@ def rule_filter_laws(ctx):
     else:
         t = block_tail(f1["body"])
         tt = render(strip(t)).replace(" ", "") if t else ""
-        ctx.check(R, "filter_by_level", tt in ("(report.category()>=output_level)", "(output_level<=report.category())"), tt, site(MAIN, f1))
+        pv1 = sgrep.params(f1)
+        okl = len(pv1) == 2 and t is not None and (sgrep.match(sgrep.pattern("__r.category() >= __l"), t, {"__r": pv1[0], "__l": pv1[1]}, sgrep.lets(f1["body"])) or sgrep.match(sgrep.pattern("__l <= __r.category()"), t, {"__r": pv1[0], "__l": pv1[1]}, sgrep.lets(f1["body"])))
+        ctx.check(R, "filter_by_level", bool(okl), tt, site(MAIN, f1))
     f2 = find_fn(MAIN, "filter_by_id")
     if f2 is None:
         ctx.missing(R, "filter_by_id")
     else:
         t = block_tail(f2["body"])
         tt = render(t).replace(" ", "") if t else ""
-        ctx.check(R, "filter_by_id", tt == "!allow_list.contains(&report.id())", tt, site(MAIN, f2))
+        pv2 = sgrep.params(f2)
+        ctx.check(R, "filter_by_id", len(pv2) == 2 and t is not None and sgrep.match(sgrep.pattern("!__a.contains(__r.id())"), t, {"__r": pv2[0], "__a": pv2[1]}, sgrep.lets(f2["body"])), tt, site(MAIN, f2))
     f3 = find_fn(MAIN, "filter_by_file")
     if f3 is None:
         ctx.missing(R, "filter_by_file")
     else:
         tt = render(f3["body"]).replace(" ", "")
-        ctx.check(R, "filter_by_file/primary-label-in-user-input", "report.primary_file_ids().iter().any(|file_id|user_inputs.contains(file_id))" in tt, tt[:200], site(MAIN, f3))
+        pv3 = sgrep.params(f3)
+        ctx.check(R, "filter_by_file/primary-label-in-user-input", len(pv3) == 2 and sgrep.has(f3["body"], "__r.primary_file_ids().iter().any(|__f| __u.contains(__f))", sgrep.lets(f3["body"]), {"__r": pv3[0], "__u": pv3[1]}), tt[:200], site(MAIN, f3))
     # default level
     cfgf = "program_analysis/src/config.rs"
     dl = find_item(cfgf, "Const", "DEFAULT_LEVEL")
@@ -435,13 +489,17 @@ def rule_filter_laws(ctx):
     ap = find_fn(REP, "add_primary", "Report")
     if ap is not None:
         t = render(ap["body"]).replace(" ", "")
-        ctx.check(R, "Report::add_primary/records-file-id", "self.primary_file_ids_mut().push(file_id)" in t and "ReportLabel::primary(file_id,location)" in t and "self.primary_mut().push(label)" in t, t[:200], site(REP, ap))
+        pva = sgrep.params(ap)
+        envp = sgrep.lets(ap["body"])
+        oka = len(pva) == 3 and sgrep.has(ap["body"], "self.primary_file_ids_mut().push(__f)", None, {"__f": pva[1]}) and sgrep.has(ap["body"], "self.primary_mut().push(ReportLabel::primary(__f, __l).with_message(__m))", envp, {"__f": pva[1], "__l": pva[0], "__m": pva[2]})
+        ctx.check(R, "Report::add_primary/records-file-id", oka, t[:200], site(REP, ap))
     # constructors set the category they are named after
     for nm, cat in (("error", "Error"), ("warning", "Warning"), ("info", "Info")):
         f = find_fn(REP, nm, "Report")
         if f is not None:
             t = render(f["body"]).replace(" ", "")
-            ctx.check(R, "Report::%s/category" % nm, "Report::new(MessageCategory::%s,message,code)" % cat in t, t, site(REP, f))
+            pvn = sgrep.params(f)
+            ctx.check(R, "Report::%s/category" % nm, len(pvn) == 2 and sgrep.has(f["body"], "Report::new(MessageCategory::%s, __m, __c)" % cat, None, {"__m": pvn[0], "__c": pvn[1]}), t, site(REP, f))
 
 
 def rule_passes(ctx):
